@@ -64,6 +64,8 @@ func Rand(rng *rand.Rand, name string, server string, unit uint8, addr int, type
 			f.Length = uint8(1 + rng.Intn(8))
 		case 1:
 			f.Length = []uint8{249, 250, 251, 254, 255}[rng.Intn(5)]
+		case 2:
+			f.Length = uint8(61 + rng.Intn(190)) // 61..250 bytes: long, yet at most 125 registers
 		default:
 			f.Length = uint8(1 + rng.Intn(60))
 		}
